@@ -321,7 +321,7 @@ fn c01_read_bits_mbap_q() {
     }
 }
 
-//@ props: C01 C02 C06 C07 C20
+//@ props: C01 C02 C06 C07~ C20~
 //@ peer: yes
 //@ timeout: 900
 //@ fns: server::request::Request::get_reply, serial::frame::format_rtu_pdu, crc::Crc<u16>::checksum
@@ -333,7 +333,7 @@ fn c01_read_bits_rtu_q() {
     read_bits_kernel::<8>(1, true);
 }
 
-//@ props: C01 C02 C06 C07 C20
+//@ props: C01 C02 C06 C07~ C20~
 //@ peer: yes
 //@ tier: thorough
 //@ timeout: 1800
@@ -395,7 +395,7 @@ fn read_regs_kernel<const MAXQ: u16>(fc: u8, rtu: bool) {
     std::mem::forget(h);
 }
 
-//@ props: C01 C02 C07 C20
+//@ props: C01 C02 C07~ C20~
 //@ peer: yes
 //@ timeout: 900
 //@ fns: server::request::Request::parse, Request::get_reply, common::serialize::<RegisterWriter as Serialize>::serialize, common::serialize::calc_bytes_for_registers, common::frame::FrameWriter::format_reply, tcp::frame::format_mbap
@@ -410,7 +410,7 @@ fn c01_read_regs_mbap_q() {
     }
 }
 
-//@ props: C01 C02 C06 C07 C20
+//@ props: C01 C02 C06 C07~ C20~
 //@ peer: yes
 //@ timeout: 900
 //@ fns: server::request::Request::get_reply, serial::frame::format_rtu_pdu
@@ -421,7 +421,7 @@ fn c01_read_regs_rtu_q() {
     read_regs_kernel::<3>(3, true);
 }
 
-//@ props: C01 C02 C06 C07 C20
+//@ props: C01 C02 C06 C07~ C20~
 //@ peer: yes
 //@ tier: thorough
 //@ timeout: 1800
@@ -499,7 +499,7 @@ fn c01_write_single_mbap() {
     }
 }
 
-//@ props: C01 C02 C06 C07 C20
+//@ props: C01 C02 C06 C07~ C20~
 //@ peer: yes
 //@ fns: server::request::Request::get_reply, serial::frame::format_rtu_pdu
 //@ bounds: fc 5-6, RTU framing; unwind 8
@@ -578,7 +578,7 @@ fn write_multiple_kernel<const DATA: usize>(fc: u8, rtu: bool) {
     std::mem::forget(h);
 }
 
-//@ props: C01 C02 C07 C20
+//@ props: C01 C02 C07~ C20~
 //@ peer: yes
 //@ timeout: 1200
 //@ fns: server::request::Request::parse, Request::get_reply, types::BitIterator::parse_all, <BitIterator as Iterator>::next, common::serialize::<AddressRange as Serialize>::serialize, FrameWriter::format_reply
@@ -601,7 +601,7 @@ fn c01_write_regs_mbap_q() {
     write_multiple_kernel::<6>(16, false);
 }
 
-//@ props: C01 C02 C06 C07 C20
+//@ props: C01 C02 C06 C07~ C20~
 //@ peer: yes
 //@ timeout: 1200
 //@ fns: server::request::Request::get_reply, serial::frame::format_rtu_pdu
